@@ -54,3 +54,7 @@ LEVEL_NOTE = ("Trusted: TLC/SANY, the Go toolchain, the harness ticker + hook or
               "sampled for larger N.")
 TECHNIQUE = "TLA+ spec (Wheel/WheelImpl), TLC refinement check, TLC-generated state-cover replay + TLC trace validation"
 DESIGN_REF = "DESIGN.md Part B C12"
+
+
+def replay(run, path):
+    run.replay(FAM, "WheelTrace", "WheelTrace.cfg", path)
